@@ -50,3 +50,61 @@ for rb, tag in (("const(False)", "rel"),):
                  "same_branch": "(n_1 > 4) == (n_2 > 4)"},
         options={"rel_vary": ["y", "nodata"]}, call_variant={"ws2d": "U"}, props=("C02",))
     REL += [f"{OPS}/ws2dwcv.py::ws2dwcv@{tag}", f"{OPS}/ws2dwcvp.py::ws2dwcvp@{tag}"]
+
+
+# ------------------------------------------------------------------------------------------------------------------------------
+# The V-curve kernels do not zero-fill missing cells: the placeholder reaches the solver and the fit sums and is cancelled there by
+# the zero weight (0 * placeholder).  Step 1: the solver depends on y only through the products w[i] * y[i] (relational contract of
+# ws2d itself, lockstep over its two loops).  Step 2 (below): the kernels, with the solver as a function of (w * y, lmda, w).
+contract(f"{OPS}/ws2d.py::ws2d", variant="rel", fmodel="U", params={"y": "real[N]", "lmda": "real", "w": "real[N]"}, result="real[N]",
+         requires={"length": "N >= 4", "same_products": "forall(j, 0, N, same(w[j] * y_1[j], w[j] * y_2[j]))"},
+         ensures={"same_curve": "forall(k, 0, N, same(result_1[k], result_2[k]))"},
+         options={"rel_vary": ["y"], "rel_lockstep": True, "frame_obligations": False}, props=("C02",),
+         note="two runs with the same weights, the same lambda and the same products w*y return the same curve")
+contract(f"{OPS}/ws2d.py::ws2d", variant="Uwy", fmodel="U", params={"y": "real[N]", "lmda": "real", "w": "real[N]"}, result="real[N]",
+         options={"frame_obligations": False, "valfn_args": {"y": "w * y"}}, props=("C02",),
+         note="call-site contract in model U: a function of (w * y, lmda, w) on the index range; justified by ws2d@rel")
+REL.append(f"{OPS}/ws2d.py::ws2d@rel")
+
+
+def missv(i):
+    return f"(y_{i}[j] == nodata_{i})"
+
+
+REQ_V = {"length": "N >= 4", "srange": "M >= 2",
+         "same_missing_mask": f"forall(j, 0, N, {missv(1)} == {missv(2)})",
+         "same_valid_values": f"forall(j, 0, N, implies(not {missv(1)}, same(y_1[j], y_2[j])))",
+         "finite_placeholders": f"forall(j, 0, N, implies({missv(1)}, not isnan(y_1[j]) and not isinf(y_1[j]) and not isnan(y_2[j]) and not isinf(y_2[j])))"}
+UNIT_W = {0: {"var": "ii", "invariant": {"unit": "forall(k, 0, ii, w[k] == ite(y[k] == nodata, 0.0, 1.0))"}}}
+contract(f"{OPS}/ws2doptv.py::ws2doptv", variant="rel", fmodel="U",
+    params={"y": "real[N]", "nodata": "real", "llas": "real[M]", "out": "i2[N]", "lopt": "real[1]"}, modifies=["out", "lopt"],
+    requires=REQ_V,
+    ensures={"same_band_and_lambda": "implies(n_1 > 1, forall(k, 0, N, out_1[k] == out_2[k]) and same(lopt_1[0], lopt_2[0]))",
+             "same_branch": "(n_1 > 1) == (n_2 > 1)"},
+    loops={**UNIT_W, 6: {"var": "i", "invariant": {"k": "0 <= k and k < nl1"}}},
+    options={"rel_vary": ["y", "nodata"], "rel_lockstep": True, "extra_axioms": ["sub_finite", "sub_nonfinite"]}, call_variant={"ws2d": "Uwy"}, props=("C02",))
+REL.append(f"{OPS}/ws2doptv.py::ws2doptv@rel")
+# envelope weights: every cell written so far is the validity weight times p or 1 - p (so a missing cell's weight is 0 * finite = 0)
+ENV_W = {"var": "j", "invariant": {"ww": "forall(k, 0, j, ww[k] == w[k] * wa[k] and (same(wa[k], p) or same(wa[k], p1)))"}}
+ENV_OUTER = {"var": "i", "invariant": {"ww": "implies(i >= 1, forall(k, 0, N, ww[k] == w[k] * wa[k] and (same(wa[k], p) or same(wa[k], p1))))"}}
+VOPT = {"rel_vary": ["y", "nodata"], "rel_lockstep": True, "extra_axioms": ["sub_finite", "sub_nonfinite"]}
+contract(f"{OPS}/ws2doptvp.py::ws2doptvp", variant="rel", fmodel="U",
+    params={"y": "real[N]", "nodata": "real", "p": "real", "llas": "real[M]", "out": "i2[N]", "lopt": "real[1]"}, modifies=["out", "lopt"],
+    requires=dict(REQ_V, finite_envelope="not isnan(p) and not isinf(p)"),
+    ensures={"same_band_and_lambda": "implies(n_1 > 1, forall(k, 0, N, out_1[k] == out_2[k]) and same(lopt_1[0], lopt_2[0]))",
+             "same_branch": "(n_1 > 1) == (n_2 > 1)"},
+    loops={**UNIT_W, 3: ENV_W, 11: ENV_W, 9: {"var": "i", "invariant": {"k": "0 <= k and k < nl1"}}, 10: ENV_OUTER},
+    options=VOPT, call_variant={"ws2d": "Uwy"}, props=("C02",))
+REL.append(f"{OPS}/ws2doptvp.py::ws2doptvp@rel")
+for lcv, tag in (("real", "rel"),):
+    contract(f"{OPS}/ws2doptvplc.py::ws2doptvplc", variant=tag, fmodel="U",
+        params={"y": "i2[N]", "nodata": "real", "p": "real", "lc": lcv, "out": "i2[N]", "lopt": "real[1]"}, modifies=["out", "lopt"],
+        requires={"length": "N >= 4",
+                  "same_missing_mask": f"forall(j, 0, N, {missv(1)} == {missv(2)})",
+                  "same_valid_values": f"forall(j, 0, N, implies(not {missv(1)}, y_1[j] == y_2[j]))",
+                  "finite_envelope": "not isnan(p) and not isinf(p)"},
+        ensures={"same_band_and_lambda": "implies(n_1 > 1, forall(k, 0, N, out_1[k] == out_2[k]) and same(lopt_1[0], lopt_2[0]))",
+                 "same_branch": "(n_1 > 1) == (n_2 > 1)"},
+        loops={**UNIT_W, 3: ENV_W, 11: ENV_W, 9: {"var": "i", "invariant": {"k": "0 <= k and k < nl1"}}, 10: ENV_OUTER},
+        options=dict(VOPT, extra_axioms=VOPT["extra_axioms"] + ["i2f_finite"]), call_variant={"ws2d": "Uwy"}, props=("C02",))
+    REL.append(f"{OPS}/ws2doptvplc.py::ws2doptvplc@{tag}")
